@@ -20,6 +20,15 @@ use std::process::{Command, Stdio};
 use std::time::{Duration, Instant};
 
 pub const VERIF: &str = "/verif";
+/// Where evidence and replay files go: /verif, unless VCHECK_OUT names another directory
+/// (used only by the mutant-validation script, so that runs against scratch trees do not
+/// overwrite the evidence of the real tree).
+pub fn out_root() -> PathBuf {
+    match std::env::var("VCHECK_OUT") {
+        Ok(p) if !p.is_empty() => PathBuf::from(p),
+        _ => PathBuf::from(VERIF),
+    }
+}
 pub const NWORKERS: usize = 16;
 const MAX_HASHES_PER_WORKER: usize = 6_000_000;
 const MAX_VIOLATIONS_PER_BUCKET: usize = 1;
@@ -572,7 +581,7 @@ fn write_replay<P: Property>(
     });
     let s = serde_json::to_string_pretty(&v).unwrap_or_default();
     let h = debug_hash(&s);
-    let d = Path::new(VERIF).join(dir).join(P::ID);
+    let d = out_root().join(dir).join(P::ID);
     let _ = std::fs::create_dir_all(&d);
     let p = d.join(format!("{:016x}.json", h));
     let _ = std::fs::write(&p, s);
@@ -598,7 +607,7 @@ fn set_rlimit_as(bytes: u64) {
 }
 
 fn tmp_dir() -> PathBuf {
-    let d = Path::new(VERIF).join("harness/target/vcheck-tmp");
+    let d = out_root().join("harness/target/vcheck-tmp");
     let _ = std::fs::create_dir_all(&d);
     d
 }
@@ -911,7 +920,7 @@ fn parent<P: Property>(tier: Tier) -> i32 {
         let v = json!({"property": P::ID, "check": pc["check"], "tier": tier.name(), "seed": seed,
             "case": pc["case"], "verdict": format!("worker {kind} while running this case")});
         let s = serde_json::to_string_pretty(&v).unwrap();
-        let d = Path::new(VERIF).join("replays").join(P::ID);
+        let d = out_root().join("replays").join(P::ID);
         let _ = std::fs::create_dir_all(&d);
         let p = d.join(format!("{:016x}.json", debug_hash(&s)));
         let _ = std::fs::write(&p, s);
@@ -966,7 +975,12 @@ fn parent<P: Property>(tier: Tier) -> i32 {
         inconclusive.push(format!("internal: {e}"));
     }
     // discards are generator defects when frequent
-    let total_disc: u64 = agg.discards.values().sum();
+    let total_disc: u64 = agg
+        .discards
+        .iter()
+        .filter(|(k, _)| k.starts_with("selfcheck") || k.starts_with("strategy"))
+        .map(|(_, v)| *v)
+        .sum();
     if total_disc as f64 > 0.02 * (agg.evaluations.max(1) as f64) && total_disc > 50 {
         inconclusive.push(format!("generator discards too frequent: {:?}", agg.discards));
     }
@@ -1020,7 +1034,7 @@ fn parent<P: Property>(tier: Tier) -> i32 {
         "wall_s": t0.elapsed().as_secs_f64(),
         "violations": violations.len(),
     });
-    let ep = Path::new(VERIF).join("evidence").join(format!("{}.json", P::ID));
+    let ep = out_root().join("evidence").join(format!("{}.json", P::ID));
     let _ = std::fs::create_dir_all(ep.parent().unwrap());
     if let Err(e) = std::fs::write(&ep, serde_json::to_string_pretty(&evidence).unwrap()) {
         eprintln!("cannot write evidence: {e}");
